@@ -2,7 +2,7 @@
 (* TLC models for Hnsw.tla:                                                                                   *)
 (*   Gen_Hnsw_bfs.cfg    every transition of the reference up to MaxOps over 5 ids (one line per transition,  *)
 (*                       history to the source state + the step; VIEW hides the history); PredicateSound      *)
-(*   Gen_Hnsw_walk.cfg   -simulate walks over 40 ids; one line per finished walk, expectations for every step *)
+(*   Walk_Hnsw.tla + Gen_Hnsw_walk.cfg  -simulate walks over 40 ids; one line per finished walk, expectations for every step *)
 (*   Trace_Hnsw.tla/.cfg observed search results judged by FailedClausesIn (cross-check of the Rust mirror)   *)
 EXTENDS Hnsw, Json
 
@@ -30,15 +30,6 @@ OutEntry(e, withExp) == LET ls == SetToSeq(e.post.live) IN
                          exp |-> IF withExp THEN ExpOf(ls, e.post) ELSE << >>]
 Out(h) == [i \in 1..Len(h) |-> OutEntry(h[i], Walk \/ i = Len(h))]
 EmitStep == PrintT(<<"T", ToJson([hist |-> Out(hist')])>>)
-\* Walks: TLC's simulator evaluates constraints and invariants on EVERY candidate successor, so a finished walk is
-\* marked by one extra step that has a single successor (fin' = TRUE) and is printed from an invariant on that state.
-VARIABLE fin
-WInit == Init /\ fin = FALSE
-WNext == IF Len(hist) < MaxOps THEN Next /\ fin' = fin
-         ELSE ~fin /\ fin' = TRUE /\ UNCHANGED <<abstract, ghost, hist>>
-WSpec == WInit /\ [][WNext]_<<abstract, ghost, hist, fin>>
-EmitWalk == ~fin \/ PrintT(<<"T", ToJson([hist |-> Out(hist)])>>)
-
 (* the predicate accepts the exact answer and rejects each kind of broken answer *)
 Reverse(s) == [i \in 1..Len(s) |-> s[Len(s) + 1 - i]]
 Ks == {1, 2, Cardinality(live), Cardinality(live) + 1} \ {0}
